@@ -311,12 +311,18 @@ def level_string(rng, lmax, lmin, p, layered):
 
 
 def mpirun(binp, nprocs, args, env, timeout):
+    import signal
     cmd = ["mpirun", "--oversubscribe", "-n", str(nprocs), binp] + args
+    p = subprocess.Popen(cmd, stdout=subprocess.PIPE, stderr=subprocess.PIPE, text=True, env=env, start_new_session=True)
     try:
-        r = subprocess.run(cmd, capture_output=True, text=True, env=env, timeout=timeout)
-        return r.returncode, (r.stdout[-3000:] + r.stderr[-3000:])
+        out, err = p.communicate(timeout=timeout)
+        return p.returncode, (out[-3000:] + err[-3000:])
     except subprocess.TimeoutExpired:
-        subprocess.run(["pkill", "-9", "-f", os.path.basename(binp)], capture_output=True)
+        try:
+            os.killpg(p.pid, signal.SIGKILL)
+        except OSError:
+            pass
+        p.communicate()
         return None, "timeout"
 
 
@@ -324,8 +330,8 @@ def run(pid, spec, unit, binp, tier, seed, workdir, overlay, scale):
     res = sup.empty_result()
     rng = random.Random(seed * 7919 + 13)
     env = build.sanitizer_env("mpi")
-    nconf = max(1, int((2 if tier == "quick" else 12) * scale))
-    nsched = 3 if tier == "quick" else 5
+    nconf = max(1, int((2 if tier == "quick" else 6) * scale))
+    nsched = 3 if tier == "quick" else 4
     plist_quick = [2, 3, 4, 7]
     arrival_orders = {}
     samples = []
@@ -335,7 +341,11 @@ def run(pid, spec, unit, binp, tier, seed, workdir, overlay, scale):
         confs.append(dict(k=c, mesh=mesh, lmax=rng.choice(lmaxs), lmin=lmin, space=("q1", "stokes")[c] if c < 2 else rng.choice(["q1", "q2", "q2", "stokes"]),
                           parti=rng.choice(["naive", "2level genetic naive", "genetic naive"]) if c else "2level naive",
                           data_seed=rng.randrange(1, 10 ** 6)))
-    for conf in confs:
+    def do_conf(conf):
+        rng = random.Random(seed * 104729 + conf["k"] * 7 + 1)
+        res = sup.empty_result()
+        arrival_orders = {}
+        samples = []
         def args_for(p, layered):
             lv = level_string(rng, conf["lmax"], conf["lmin"], p, layered)
             return lv, ["--mesh", os.path.join(REPO, "data/meshes", conf["mesh"]), "--level"] + lv.split() + \
@@ -346,8 +356,8 @@ def run(pid, spec, unit, binp, tier, seed, workdir, overlay, scale):
         ref, err = load_run(refp, 1) if rc == 0 else (None, "rc=%s %s" % (rc, out[-1500:]))
         if ref is None:
             res["harness_errors"].append("C13 reference run failed for %s: %s" % (json.dumps(conf), err))
-            continue
-        plist = plist_quick if tier == "quick" else sorted(set([2, 3, 4, 5, 6, 7, 8] + rng.sample(range(9, 17), 4)))
+            return res, arrival_orders, samples
+        plist = plist_quick if tier == "quick" else sorted(set([2, 3, 4, 5, 6, 7, 8] + rng.sample(range(9, 17), 3)))
         ndofs = len(vecs_of(ref, "u")[0]) or sum(len(vecs_of(ref, "u" + q)[0]) for q in (".v0", ".v1", ".p"))
         for p in plist:
             first_sol = None
@@ -404,6 +414,16 @@ def run(pid, spec, unit, binp, tier, seed, workdir, overlay, scale):
                                         desc=dict(desc, ndofs=ndofs, chosen_levels=info.get("chosen_levels"), parti=info.get("parti"))))
                 for f in glob.glob(pref + ".*.jsonl"):
                     os.remove(f)
+        return res, arrival_orders, samples
+
+    from concurrent.futures import ThreadPoolExecutor
+    with ThreadPoolExecutor(max_workers=(1 if tier == "quick" else 3)) as ex:
+        for r, ao, sm in ex.map(do_conf, confs):
+            sup.merge(res, r)
+            for k, v in ao.items():
+                arrival_orders.setdefault(k, set()).update(v)
+            samples.extend(sm)
+    samples = samples[:4]
     res["samples"] = samples
     res["counters"]["distinct_arrival_orders_observed"] = sum(len(v) for v in arrival_orders.values())
     res["counters"]["rank_sync_streams"] = len(arrival_orders)
